@@ -38,9 +38,24 @@ def handlePipe (toks : List String) : String :=
       | none => "BAD-OP"
     else "BAD-OP"
 
+/-- `PIPEF per=<n> mode=… canon=… src … ; steps`: the same program over a streamed file source -/
+def handlePipeFile : List String → String
+  | p :: toks =>
+    match parseNat? (p.drop 4).toString, parseReq toks with
+    | some per, some q =>
+      if !p.startsWith "per=" then "BAD-OP"
+      else if q.mode == "seq" then render q.canon (runSeqFile q.src per q.steps)
+      else if q.mode.startsWith "par:" then
+        match parseNat? (q.mode.drop 4).toString with
+        | some n => render q.canon (runParFile q.src per q.steps n)
+        | none => "BAD-OP"
+      else "BAD-OP"
+    | _, _ => "BAD-OP"
+  | _ => "BAD-OP"
+
 /-- large-input cases are judged by the harness oracles only; the driver just acknowledges them -/
 def handleOracleOnly (_ : List String) : String := "-"
 
-def handlers : List (String × (List String → String)) := [("PIPE", handlePipe), ("ORACLE-ONLY", handleOracleOnly)]
+def handlers : List (String × (List String → String)) := [("PIPE", handlePipe), ("PIPEF", handlePipeFile), ("ORACLE-ONLY", handleOracleOnly)]
 
 end IB.D01
